@@ -82,7 +82,7 @@ def check(ck):
     tags_in = set()
     for n in A.walk_body(dec.node):
         if isinstance(n, ast.Compare) and isinstance(n.ops[0], ast.Eq) and A.const_str(n.comparators[0]) is not None \
-                and dec.xnorm(n.left, dec.nodes(dec.stmt_of(n) or n)[0] if dec.nodes(dec.stmt_of(n) or n) else None).endswith("['_mementoType']"):
+                and dec.nodes(n) and dec.xnorm(n.left, dec.nodes(n)[0]).endswith("['_mementoType']"):
             tags_in.add(A.const_str(n.comparators[0]))
     ck.ob(R1, dec.key(None, "tags"), tags_out == tags_in and len(tags_out) == 3, "type tags agree: %s" % sorted(tags_out) if tags_out == tags_in else
           "type tags differ: encoder emits %s, decoder handles %s" % (sorted(tags_out), sorted(tags_in)), dec.where())
